@@ -331,6 +331,7 @@ var layoutSeeds = []string{
 	"x := 1 # trailing comment\n# full comment line\ny := 2 # another\n[x, # c\n  y]\n",
 	"<{|i|\n  yield i if i < 3\n  recur(i + 1)\n}>.new(0)\n  |@{|v| v}\n  |~.len\n",
 	"s := \"n=#{[{|x| x}\n].len} m=#{[{a: 1}\n  ].len}\"\ns\n",
+	"[1,\n1.5,\n0x1F,\n?a,\n'sym,\n`raw`,\n\"a#{1}b\",\n{|| \\1}(2),\n{|| \\0}(3),\n-2,\n1e2]\n",
 	"v := `first line\nsecond line\n\n  fourth`\nw := `a\nb`\n[v.len, w.len, v]\n",
 	"f := {|a, k: 1, j: 2| [a, k, j]}\nf(1, k: S(1), j: S(2))\nf(2, j: S(3), k: S(4))\nf(3, k: S(5), k: S(6))\n",
 	"g := {|a, k: S(1), j: S(2), k: S(3)| [a, k, j]}\ng(1, **{k: S(4)}, **{j: S(5)})\no := {m: m{|k: 1, j: 2| [k, j]}}\no.m(j: S(6), k: S(7), j: S(8))\n",
@@ -467,7 +468,16 @@ func (c *c16Check) Run(seed, run uint64, rec []uint32, st Stats, only *Viol) []V
 			// ... and blanks or tabs in front of what follows the break ("surrounding spaces or
 			// tabs"), also far beyond the usual line widths
 			k := []int{1, 2, 7, 100, 1000, 4095, 4096, 4097, 4200, 8200, 12300, 20000}[t.Intn(12)]
-			pad += strings.Repeat([]string{" ", "\t"}[t.Intn(2)], k)
+			if t.Chance(1, 2) {
+				// runs of blanks and runs of tabs alternating (2 to 15 runs)
+				var sb strings.Builder
+				for r, runs := 0, 2+t.Intn(14); r < runs; r++ {
+					sb.WriteString(strings.Repeat([]string{" ", "\t"}[r%2], 1+t.Intn(3)))
+				}
+				pad += sb.String()
+			} else {
+				pad += strings.Repeat([]string{" ", "\t"}[t.Intn(2)], k)
+			}
 			s.ByKind["layout-indent-after-pad"]++
 		}
 		// the grammar takes LF, CRLF and a lone CR as line breaks alike
